@@ -421,3 +421,82 @@ def helpers_coverage() -> int:
     missing = sorted(public - covered)
     note("helpers without a harness", missing)
     return 0 if missing else 2
+
+
+# ---------------------------------------------------------------------------------------------------------
+@harness("C13", lemma="signatures", example=dict(x=2, k=3, m=4, d=5, pk=True), timeout=120,
+         bounds="decorated steps with positional-or-keyword, keyword-only (after a bare *) and mixed option-valued parameters; the "
+                "parameter option present or absent",
+         what="every option-valued parameter of a decorated step - whatever its kind in the signature - is evaluated from the options "
+              "(the body never receives the Option object), and is reported by keys() and explain(); a missing one fails evaluate()")
+def signatures(x: int, k: int, m: int, d: int, pk: bool) -> int:
+    with untraced():
+        @pipeline_step
+        def kwonly(v, *, k=Option("K")):
+            return ("kwonly", v, k)
+
+        @pipeline_step
+        def mixed(v, m=Option("M"), *, k=Option("K"), c=7):
+            return ("mixed", v, m, k, c)
+
+        @pipeline_step
+        def plainstep(v, d=Option("D")):
+            return ("plain", v, d)
+
+    o = {"M": m, "D": d}
+    if pk:
+        o["K"] = k
+    for step, want_keys, exp in (
+        (kwonly, {"K"}, ("kwonly", x, k)),
+        (mixed, {"K", "M"}, ("mixed", x, m, k, 7)),
+        (plainstep + kwonly, {"K", "D"}, ("kwonly", ("plain", x, d), k)),
+    ):
+        got = outcome(lambda: step.transform(x, o))
+        ex = outcome(lambda: step.explain({}))
+        note("options", o, "got", got, "expected", exp, "explain({})", ex)
+        if ex[0] != "ok" or not want_keys <= ex[1]:
+            return 0
+        if not pk:
+            if got[0] == "ok":
+                return 0
+            continue
+        if got[0] != "ok" or not same(got[1], exp):
+            return 0
+        if not want_keys <= step.keys(o):
+            return 0
+    return 2 if pk else 1
+
+
+@harness("C13", lemma="evaluation-time", example=dict(x=2, p0=3, p1=4, q=9, present=True), timeout=120,
+         bounds="a 3-step pipeline whose option-valued parameters sit in the first and in the last step; evaluate(o) separated from the "
+                "call of the resulting function, with the options dictionary changed in between",
+         what="step parameters are read from the options when the pipeline is evaluated: a missing parameter of ANY step fails "
+              "evaluate(o) itself, and the function evaluate(o) returned keeps computing with the values o had at that time")
+def evaluation_time(x: int, p0: int, p1: int, q: int, present: bool) -> int:
+    with untraced():
+        @pipeline_step
+        def first(v, p=Option("P0")):
+            return 3 * v + p
+
+        @pipeline_step
+        def last(v, p=Option("P1")):
+            return 5 * v + p
+
+        pipe = first + (lambda v: v + 1) + last
+    o = {"P1": p1}
+    if present:
+        o["P0"] = p0
+    f = outcome(lambda: pipe.evaluate(o))
+    if not present:
+        note("evaluate() with the first step's parameter missing", f)
+        return 0 if f[0] == "ok" else 2
+    if f[0] != "ok":
+        return 0
+    o["P0"] = q                      # the caller reuses / edits the dictionary afterwards
+    del o["P1"]
+    got = outcome(lambda: f[1](x))
+    exp = 5 * (3 * x + p0 + 1) + p1
+    note("value computed after the dictionary changed", got, "expected (values at evaluation time)", exp)
+    if got[0] != "ok" or not same(got[1], exp):
+        return 0
+    return 2
